@@ -9,4 +9,9 @@ impl Vt {
 
         state
     }
+
+    /// Lines of the inactive screen buffer, in its own (possibly stale) geometry.
+    pub fn verif_other_lines(&self) -> Vec<crate::Line> {
+        self.terminal.verif_other_lines()
+    }
 }
